@@ -2,11 +2,13 @@
 """prints the prompt for a seeding sub-agent for property <id> (only the property text and the scratch paths)"""
 import json,sys
 pid=sys.argv[1]
-round2 = len(sys.argv) > 2
-sid = pid + ("-r2" if round2 else "")
-prev = json.load(open(f"/verif/seeded/{pid}/meta.json")) if round2 else None
+rnd = sys.argv[2] if len(sys.argv) > 2 else ""   # "", "r2", "r3", ...
+round2 = bool(rnd)
+sid = pid + (f"-{rnd}" if rnd else "")
+import glob
+prevs = [json.load(open(f)) for f in sorted(glob.glob(f"/verif/seeded/{pid}*/meta.json"))] if round2 else []
 p=[json.loads(l) for l in open('/verif/properties.jsonl') if json.loads(l)['id']==pid][0]
-extra = (f"A first change for this property has already been collected (files {prev['files_changed']}; trigger: {prev['needs_to_manifest']}). Yours must be of a DIFFERENT kind: a different code site and a different trigger, exercising another part of the statement.\n\nIMPORTANT: never use `git stash` (it is shared between worktrees); to toggle your change use `git diff > /tmp/seed-out/{sid}/p.diff; git apply -R /tmp/seed-out/{sid}/p.diff; ...; git apply /tmp/seed-out/{sid}/p.diff`.\n\n") if round2 else ""
+extra = ("Changes for this property that have already been collected:\n" + "".join(f"  - files {q['files_changed']}; trigger: {q['needs_to_manifest']}\n" for q in prevs) + f"Yours must be of a DIFFERENT kind: a different code site and a different trigger, exercising another part of the statement (read the statement closely: pick a clause, a quantified input class or an anchored file that none of the above touches).\n\nIMPORTANT: never use `git stash` (it is shared between worktrees); to toggle your change use `git diff > /tmp/seed-out/{sid}/p.diff; git apply -R /tmp/seed-out/{sid}/p.diff; ...; git apply /tmp/seed-out/{sid}/p.diff`.\n\n") if round2 else ""
 print(f"""You are helping to evaluate a verification effort for the Rust project toml-rs/toml (crates toml, toml_edit, toml_datetime, toml_write, serde_spanned). You get ONE semantic property of the library and your own scratch git worktree of the repository. Your job: write a realistic code change to the library that BREAKS this property while the crate still compiles and the repository's existing test suite still passes, and a demonstration that fails with your change and passes without it.
 
 Property {p['id']}: {p['title']}
